@@ -161,9 +161,32 @@ var convertCfgs = []Cfg{{}, {Unsafe: true}, {XHTML: true}, {Unsafe: true, XHTML:
 
 // parserModelCases: the documents of a run (each once, up to max) against the parser model and
 // the composed Convert model
+// roundRobin orders the documents so that every stream gets its share of a capped number of
+// cases: the first of every stream, then the second of every stream, ...
+func roundRobin(items []docItem) []docItem {
+	var order []string
+	by := map[string][]docItem{}
+	for _, it := range items {
+		if _, ok := by[it.stream]; !ok {
+			order = append(order, it.stream)
+		}
+		by[it.stream] = append(by[it.stream], it)
+	}
+	out := make([]docItem, 0, len(items))
+	for k := 0; len(out) < len(items); k++ {
+		for _, s := range order {
+			if k < len(by[s]) {
+				out = append(out, by[s][k])
+			}
+		}
+	}
+	return out
+}
+
 func parserModelCases(c *Ctx, items []docItem, max int) {
 	seen := map[string]bool{}
 	n := 0
+	items = roundRobin(items)
 	for i, it := range items {
 		if n >= max {
 			break
